@@ -303,6 +303,26 @@ Definition flush_complete (x : ctx) : ctx := set_complete x true.
 Definition current_peer (x : ctx) : string := rp_current_peer (x_params x).
 Definition init_peer (x : ctx) : string := rp_init_peer (x_params x).
 
+(* the three variable matrices of Scalars (non-iterable scalars, canon streams, canon stream maps) move together *)
+Definition with_canon_maps (x : ctx) (m : matrix canon_map_wp) : ctx :=
+  set_ext x {| e_streams := e_streams (x_ext x); e_stream_maps := e_stream_maps (x_ext x); e_canon_maps := m |}.
+Definition all_fold_start (x : ctx) : ctx :=          (* Scalars::meet_fold_start *)
+  with_canon_maps (set_canons (set_scalars x (Scalars.meet_fold_start vagg (x_scalars x)))
+                              (Scalars.meet_fold_start canon_wp (x_canons x)))
+                  (Scalars.meet_fold_start canon_map_wp (e_canon_maps (x_ext x))).
+Definition all_fold_end (x : ctx) : ctx :=            (* Scalars::meet_fold_end *)
+  with_canon_maps (set_canons (set_scalars x (Scalars.meet_fold_end vagg (x_scalars x)))
+                              (Scalars.meet_fold_end canon_wp (x_canons x)))
+                  (Scalars.meet_fold_end canon_map_wp (e_canon_maps (x_ext x))).
+Definition all_next_before (x : ctx) : ctx :=         (* Scalars::meet_next_before *)
+  with_canon_maps (set_canons (set_scalars x (Scalars.meet_next_before vagg (x_scalars x)))
+                              (Scalars.meet_next_before canon_wp (x_canons x)))
+                  (Scalars.meet_next_before canon_map_wp (e_canon_maps (x_ext x))).
+Definition all_next_after (x : ctx) : ctx :=          (* Scalars::meet_next_after *)
+  with_canon_maps (set_canons (set_scalars x (Scalars.meet_next_after vagg (x_scalars x)))
+                              (Scalars.meet_next_after canon_wp (x_canons x)))
+                  (Scalars.meet_next_after canon_map_wp (e_canon_maps (x_ext x))).
+
 (* PeerCidTracker::register: only the current peer's cids are kept *)
 Definition record_cid (x : ctx) (peer : string) (c : cid) : ctx :=
   if String.eqb peer (current_peer x) then set_cids x (x_cids x) (x_tracker x ++ [c]) else x.
@@ -483,6 +503,89 @@ Definition resolve_canon_l (x : ctx) (v : var_l) : pres resolved :=
            ProvCanon (cw_cid c))
   end.
 
+(* ---- canon stream maps: value_types/canon_stream_map.rs, jvaluable/canon_stream_map.rs, applier.rs ---- *)
+
+Definition get_canon_map (x : ctx) (name : string) : pres canon_map_wp :=         (* Scalars::get_canon_map *)
+  match Scalars.get_value canon_map_wp (e_canon_maps (x_ext x)) name with
+  | inl (Some c) => POk c
+  | inl None => PErr (ECatch (CVariableWasNotInitializedAfterNew name))
+  | inr e => PErr (sm_to_err e)
+  end.
+
+(* StreamMapKey::from_kvpair_owned, get_value_from_obj *)
+Definition kv_key (v : vagg) : option map_key :=
+  match va_result v with
+  | JObj kvs => match obj_get "key" kvs with Some j => stream_map_key_from_value j | None => None end
+  | _ => None
+  end.
+Definition kv_value (v : vagg) : option json :=
+  match va_result v with JObj kvs => obj_get "value" kvs | _ => None end.
+Definition va_with_result (v : vagg) (j : json) : vagg := va_new j (va_tetraplet v) (va_pos v) (va_provenance v).
+(* the (key, value aggregate) pairs of a canon stream map, in canonicalization order *)
+Fixpoint cm_pairs (vs : list vagg) : list (map_key * vagg) :=
+  match vs with
+  | [] => []
+  | v :: r => match kv_key v, kv_value v with
+              | Some k, Some j => (k, va_with_result v j) :: cm_pairs r
+              | _, _ => cm_pairs r
+              end
+  end.
+Definition Z_to_string (z : Z) : string :=
+  match z with Z0 => "0" | Zpos p => N_to_string (Npos p) | Zneg p => "-" ++ N_to_string (Npos p) end%string.
+Definition map_key_to_string (k : map_key) : string :=                             (* StreamMapKey::to_key *)
+  match k with MKStr s => s | MKInt z => Z_to_string z end.
+Definition map_key_to_json (k : map_key) : json := match k with MKStr s => JStr s | MKInt z => JInt z end.
+Definition cm_group (pairs : list (map_key * vagg)) (k : map_key) : list vagg :=
+  map snd (filter (fun p => map_key_eqb (fst p) k) pairs).
+Fixpoint cm_keys (pairs : list (map_key * vagg)) (seen : list map_key) : list map_key :=
+  match pairs with
+  | [] => []
+  | (k, _) :: r => if existsb (map_key_eqb k) seen then cm_keys r seen else k :: cm_keys r (k :: seen)
+  end.
+(* CanonStreamMap::as_jvalue: { to_key k : [values of k] }.  Keys 42 and "42" collide (the survivor depends on the
+   HashMap iteration order in the code: C20 known finding); the model lets the later key group win *)
+Definition canon_map_as_jvalue (c : canon_map_wp) : json :=
+  let pairs := cm_pairs (cmw_values c) in
+  jobj_of (map (fun k => (map_key_to_string k, JArr (map va_result (cm_group pairs k)))) (cm_keys pairs [])).
+Definition canon_map_is_empty (c : canon_map_wp) : bool := match cm_pairs (cmw_values c) with [] => true | _ => false end.
+Definition canon_map_lens_view (c : canon_map_wp) : Lens.canon_map :=
+  map (fun p => (fst p, va_result (snd p))) (cm_pairs (cmw_values c)).
+
+Definition resolve_canon_map (x : ctx) (name : string) : pres resolved :=
+  dop c <- get_canon_map x name;
+  POk (canon_map_as_jvalue c, map va_tetraplet (cmw_values c), ProvCanon (cmw_cid c)).
+
+Definition with_lens (t : tetraplet) (l : string) : tetraplet :=
+  {| tp_peer := tp_peer t; tp_service := tp_service t; tp_function := tp_function t; tp_lens := l |}.
+
+(* select_by_lambda_from_canon_map with its tetraplet (MapLensResult) *)
+Definition resolve_canon_map_l (x : ctx) (v : var_l) : pres resolved :=
+  dop c <- get_canon_map x (vl_name v);
+  let e := lens_env x in
+  dop sel <- of_lres (select_by_lambda_from_canon_map e (canon_map_lens_view c) (vl_lambda v));
+  let prov := ProvCanon (cmw_cid c) in
+  match vl_lambda v with
+  | LFunctorLength =>
+      POk (sel, [{| tp_peer := current_peer x; tp_service := ""; tp_function := ""; tp_lens := "length" |}], prov)
+  | LValuePath [] => PCrash "empty value path"
+  | LValuePath (prefix :: body) =>
+      dop k <- of_lres (canon_map_key e prefix);
+      let whole := with_lens (cmw_tetraplet c) (lambda_to_string (vl_lambda v)) in
+      match body, cm_group (cm_pairs (cmw_values c)) k with
+      | _ :: _, (_ :: _) as g =>
+          dop ib <- of_lres (split_to_idx e body);
+          match nth_N g (fst ib) with
+          | None => PCrash "canon map group index"
+          | Some el =>
+              match snd ib with
+              | [] => POk (sel, [va_tetraplet el], prov)
+              | rest => POk (sel, [add_lens (va_tetraplet el) ("." ++ join_dot (map accessor_to_string rest))%string], prov)
+              end
+          end
+      | _, _ => POk (sel, [whole], prov)
+      end
+  end.
+
 Definition number_to_json (n : number) : json :=
   match n with NumInt z => JInt z | NumFloat r => JFloat r end.
 
@@ -499,10 +602,10 @@ Definition resolve_value (x : ctx) (v : value) : pres resolved :=
   | VEmptyArray => resolve_const x (JArr [])
   | VScalar v => resolve_scalar x (v_name v)
   | VCanon v => resolve_canon x (v_name v)
-  | VCanonMap _ => PUnsupported "canon stream map"
+  | VCanonMap v => resolve_canon_map x (v_name v)
   | VScalarL v => resolve_scalar_l x v
   | VCanonL v => resolve_canon_l x v
-  | VCanonMapL _ => PUnsupported "canon stream map"
+  | VCanonMapL v => resolve_canon_map_l x v
   end.
 
 (* ------------------------------------------------------------------------------------------ *)
@@ -518,7 +621,7 @@ Definition resolve_peer_id_to_string (x : ctx) (p : peer_arg) : pres string :=
   | PScalar v => dop r <- resolve_scalar x (v_name v); try_jvalue_to_string (fst (fst r)) (v_name v)
   | PScalarL v => dop r <- resolve_scalar_l x v; try_jvalue_to_string (fst (fst r)) (vl_name v)
   | PCanonL v => dop r <- resolve_canon_l x v; try_jvalue_to_string (fst (fst r)) (vl_name v)
-  | PCanonMapL _ => PUnsupported "canon stream map"
+  | PCanonMapL v => dop r <- resolve_canon_map_l x v; try_jvalue_to_string (fst (fst r)) (vl_name v)
   end.
 Definition resolve_to_string (x : ctx) (p : string_arg) : pres string :=
   match p with
@@ -526,7 +629,7 @@ Definition resolve_to_string (x : ctx) (p : string_arg) : pres string :=
   | SScalar v => dop r <- resolve_scalar x (v_name v); try_jvalue_to_string (fst (fst r)) (v_name v)
   | SScalarL v => dop r <- resolve_scalar_l x v; try_jvalue_to_string (fst (fst r)) (vl_name v)
   | SCanonL v => dop r <- resolve_canon_l x v; try_jvalue_to_string (fst (fst r)) (vl_name v)
-  | SCanonMapL _ => PUnsupported "canon stream map"
+  | SCanonMapL v => dop r <- resolve_canon_map_l x v; try_jvalue_to_string (fst (fst r)) (vl_name v)
   end.
 Definition resolve_triplet (x : ctx) (t : triplet) : pres tetraplet :=
   dop p <- resolve_peer_id_to_string x (t_peer t);
@@ -915,7 +1018,10 @@ Definition apply_to_arg (x : ctx) (a : ap_arg) (touch_trace : bool) : pres vagg 
       dop c <- get_canon_stream x (v_name v);
       POk (VACanon (canon_as_jvalue c) (tp_peer (cw_tetraplet c)) (tp_lens (cw_tetraplet c)) pos (cw_cid c))
   | ACanonL v => from_resolved (resolve_canon_l x v)
-  | ACanonMap _ | ACanonMapL _ => PUnsupported "canon stream map"
+  | ACanonMap v =>
+      dop c <- get_canon_map x (v_name v);
+      POk (VACanon (canon_map_as_jvalue c) (tp_peer (cmw_tetraplet c)) (tp_lens (cmw_tetraplet c)) pos (cmw_cid c))
+  | ACanonMapL v => from_resolved (resolve_canon_map_l x v)
   end.
 
 Definition exec_ap (x : ctx) (a : ap_arg) (r : ap_result) : xres :=
@@ -1008,7 +1114,24 @@ Definition create_fold_iterable (x : ctx) (it : fold_iterable) : pres fold_itera
   | FICanon v =>
       dop c <- get_canon_stream x (v_name v);
       match cw_values c with [] => POk FoldEmpty | vs => POk (FoldOver (ItCanon vs 0)) end
-  | FICanonMap _ | FICanonMapL _ => PUnsupported "canon stream map"
+  | FICanonMap v =>
+      (* create_canon_stream_map_iterable_value: the LAST pair of every key, in stream order *)
+      dop c <- get_canon_map x (v_name v);
+      if canon_map_is_empty c then POk FoldEmpty else
+      let fix last_per_key (rev_vs : list vagg) (seen : list map_key) : list vagg :=
+        match rev_vs with
+        | [] => []
+        | val :: r => match kv_key val with
+                      | Some k => if existsb (map_key_eqb k) seen then last_per_key r seen else val :: last_per_key r (k :: seen)
+                      | None => last_per_key r seen
+                      end
+        end in
+      POk (FoldOver (ItCanon (rev (last_per_key (rev (cmw_values c)) [])) 0))
+  | FICanonMapL v =>
+      dop c <- get_canon_map x (vl_name v);
+      if canon_map_is_empty c then POk FoldEmpty else
+      dop sel <- of_lres (select_by_lambda_from_canon_map (lens_env x) (canon_map_lens_view c) (vl_lambda v));
+      from_jvalue sel (cmw_tetraplet c) (ProvCanon (cmw_cid c)) (vl_lambda v)
   | FIEmptyArray => POk FoldEmpty
   end.
 
@@ -1148,8 +1271,8 @@ Section Exec.
                 | XErr e y => match fin y with POk y' => XErr e y' | _ => XErr e y end
                 | r => r
                 end
-            | NStream _ => match exec_stream_instr run i x with Some r' => r' | None => XUnsupported "stream" end
-            | NStreamMap _ | NCanonMap _ => XUnsupported "stream map"
+            | NStream _ | NStreamMap _ | NCanonMap _ =>
+                match exec_stream_instr run i x with Some r' => r' | None => XUnsupported "stream" end
             end
         | IFoldScalar _ it iter b last _ =>
             match create_fold_iterable x it with
@@ -1160,16 +1283,14 @@ Section Exec.
             | POk (FoldOver itb) =>
                 (* fold_scalar.rs: fold *)
                 let fs := {| fs_iterable := itb; fs_type := IterScalar; fs_body := b; fs_last := last; fs_back_started := false |} in
-                let x1 := set_canons (set_scalars x (Scalars.meet_fold_start vagg (x_scalars x)))
-                                     (Scalars.meet_fold_start canon_wp (x_canons x)) in
+                let x1 := all_fold_start x in
                 match iter_get (x_iterables x1) (v_name iter) with
                 | Some _ => XErr (EUncatch (UMultipleIterableValues (v_name iter))) x1
                 | None =>
                     let x2 := set_iterables x1 (iter_put (x_iterables x1) (v_name iter) fs) in
                     let fin (y : ctx) : ctx :=
                       let y1 := set_iterables y (iter_del (x_iterables y) (v_name iter)) in
-                      set_canons (set_scalars y1 (Scalars.meet_fold_end vagg (x_scalars y1)))
-                                 (Scalars.meet_fold_end canon_wp (x_canons y1)) in
+                      all_fold_end y1 in
                     match run b x2 with
                     | XOk y => XOk (fin y)
                     | XErr e y => XErr e (fin y)
@@ -1194,11 +1315,9 @@ Section Exec.
                       let fs' := {| fs_iterable := it'; fs_type := fs_type fs; fs_body := fs_body fs; fs_last := fs_last fs;
                                     fs_back_started := fs_back_started fs |} in
                       let x1 := set_iterables x (iter_put (x_iterables x) (v_name iter) fs') in
-                      let x2 := set_canons (set_scalars x1 (Scalars.meet_next_before vagg (x_scalars x1)))
-                                           (Scalars.meet_next_before canon_wp (x_canons x1)) in
+                      let x2 := all_next_before x1 in
                       let after (y : ctx) : ctx :=
-                        set_canons (set_scalars y (Scalars.meet_next_after vagg (x_scalars y)))
-                                   (Scalars.meet_next_after canon_wp (x_canons y)) in
+                        all_next_after y in
                       match run (fs_body fs) x2 with
                       | XOk y =>
                           let y1 := after y in
@@ -1214,10 +1333,9 @@ Section Exec.
                       end
                 end
             end
-        | ICanon _ _ _ _ | IFoldStream _ _ _ _ _ _ =>
-            match exec_stream_instr run i x with Some r' => r' | None => XUnsupported "stream" end
+        | ICanon _ _ _ _ | IFoldStream _ _ _ _ _ _
         | IApMap _ _ _ _ | ICanonMap _ _ _ _ | ICanonStreamMapScalar _ _ _ _ | IFoldStreamMap _ _ _ _ _ _ =>
-            XUnsupported "stream map"
+            match exec_stream_instr run i x with Some r' => r' | None => XUnsupported "stream" end
         end in
       match i with
       | ICall _ _ _ _ => body
